@@ -331,27 +331,32 @@ Section Decoder.
     | None => None
     end.
 
-  (* what the published client is expected to see for a report: the same values, with invalid
-     UTF-8 replaced (the identity on valid UTF-8), durations and times read back *)
-  Definition view_stats (s : rstats) : option dstats :=
+  (* what the published client is expected to see for a report: the same values, durations and
+     times read back; [san] says what happens to strings on the way (json.Marshal replaces invalid
+     UTF-8 by U+FFFD: [sanitize], which is the identity on valid UTF-8) *)
+  Definition view_stats_with (san : bytes -> bytes) (s : rstats) : option dstats :=
     match s with
     | mk_rstats la (Finite sz) (Finite fp) =>
-      match read_last lr (sanitize la), ncanon sz, ncanon fp with
+      match read_last lr (san la), ncanon sz, ncanon fp with
       | Some (d, nv), Some a, Some b => Some (mk_dstats d a b nv)
       | _, _, _ => None
       end
     | _ => None
     end.
 
-  Definition normalize (r : report) : option dreport :=
+  Definition normalize_with (san : bytes -> bytes) (r : report) : option dreport :=
     match ptime (quote_body true (r_connected r)), ptime (quote_body true (r_expiresAt r)),
-          view_stats (r_tx r), view_stats (r_rx r) with
+          view_stats_with san (r_tx r), view_stats_with san (r_rx r) with
     | Some c, Some e, Some t, Some x =>
-      Some (mk_dreport (r_canRead r) (r_canWrite r) c e (sanitize (r_remoteAddr r))
-                       (option_map (map sanitize) (r_scopes r)) t x
-                       (sanitize (r_topic r)) (sanitize (r_userAgent r)))
+      Some (mk_dreport (r_canRead r) (r_canWrite r) c e (san (r_remoteAddr r))
+                       (option_map (map san) (r_scopes r)) t x
+                       (san (r_topic r)) (san (r_userAgent r)))
     | _, _, _, _ => None
     end.
+
+  Definition normalize := normalize_with sanitize.
+  (* the reading with strings untouched *)
+  Definition read_back := normalize_with (fun s => s).
 End Decoder.
 
 (* ------------------------------------------------------------------ the hub and its reports *)
